@@ -15,8 +15,8 @@ Definition size_limit : N := 16 ^ N.of_nat (hdr_max - 2).
 Lemma hdr_max_ok : (3 <= hdr_max)%nat.
 Proof. unfold hdr_max. lia. Qed.
 
-(* every body, every chunk size >= 1 (bound stated: min(chunk size, body length) < size_limit, 2^56
-   today): the framing produced is a sequence of  1*HEXDIG CRLF data CRLF  chunks with non-empty
+(* every body, every chunk size >= 1 (bound stated: min(chunk size, body length) < size_limit, which is
+   2^56 for hdr_max = 16): the framing produced is a sequence of  1*HEXDIG CRLF data CRLF  chunks with non-empty
    data, closed by the zero chunk and an empty trailer *)
 Theorem C17_mk_chunks_wellformed : forall n body,
   1 <= n -> N.min n (lenN body) < size_limit ->
@@ -151,9 +151,6 @@ Print Assumptions C17_choice_refuted_as_found.
 
 Example C17_q0_repaired :
   server_choice (Some [103; 122; 105; 112; 59; 113; 61; 48]) [[103; 122; 105; 112]] = Some None.
-Proof. vm_compute. reflexivity. Qed.
-
-Example C17_size_limit_value : size_limit = 2 ^ 56.
 Proof. vm_compute. reflexivity. Qed.
 
 (* a non-trivial instance: 7 bytes in chunks of 3, trailing bytes of a pipelined request untouched;
